@@ -241,7 +241,7 @@ def check_group(v, spec, rng, i, prev, keys_out):
         if m is None:
             v.count("mutant_none")
             continue
-        kind, parent, mspec = m
+        kind, parent, mspec, mpath = m
         b = M.build(mspec)
         r = oracle(a, b)
         if r != M.NE:
@@ -275,10 +275,8 @@ def check_group(v, spec, rng, i, prev, keys_out):
         elif same:
             where = f"@{parent}" if kind.startswith(("leaf:", "wrap:", "str->", "bytes->", "none->")) else ""
             extra = ""
-            if kind.startswith(("series-", "frame-")):
-                tags = [M.node_tag(n) for _, n, _, _, _ in M.nodes(spec) if n[0] in ("series", "frame")]
-                if any(",dup" in t for t in tags):
-                    extra = "/dup-index"
+            if kind.startswith("series-") and ",dup" in M.node_tag(M.get_at(spec, mpath)):
+                extra = "/dup-index"
             v.bad(f"equal-keys-for-unequal/{kind}{where}{extra}",
                   f"{kfname} gives the same key for values that differ ({kind})",
                   value=M.pyrepr(a)[:500], look_alike=M.pyrepr(b)[:500], key=repr(ka)[:400])
